@@ -30,6 +30,7 @@ import (
 	"sort"
 	"strings"
 	"sync"
+	"sync/atomic"
 	"syscall"
 	"time"
 
@@ -75,17 +76,21 @@ func c19Marker(k int) string { return fmt.Sprintf(`{"v":%d}`, k) }
 func c19Content(kind string, k int, rng *rand.Rand) string {
 	head := fmt.Sprintf("# marker: %s\n# edit %d %08x\n", c19Marker(k), k, rng.Uint32())
 	version := fmt.Sprintf("@ GET /version {\n  > {v: %d}\n}\n", k)
+	// every version also declares an input contract of its own: the serving version must keep
+	// accepting ITS conforming body whatever later edits (that do not load) declare
+	typed := fmt.Sprintf("\n: Payload {\n  f%d: str!\n}\n\n@ POST /typed {\n  < input: Payload\n  > {typed: %d}\n}\n", k, k)
+	typedOther := fmt.Sprintf("\n: Payload {\n  g%d: int!\n}\n\n@ POST /typed {\n  < input: Payload\n  > {typed: %d}\n}\n", k, k)
 	extra := ""
 	for i, n := 0, rng.Intn(3); i < n; i++ {
 		extra += fmt.Sprintf("\n@ GET /r%d_%d/:id {\n  $ a = %d\n  > {id: id, a: a + %d}\n}\n", k, i, rng.Intn(100), i)
 	}
 	switch kind {
 	case "valid", "recreate", "atomic", "trunc":
-		return head + version + extra
+		return head + version + typed + extra
 	case "valid-interp":
-		return head + fmt.Sprintf("@ GET /version {\n  %% db: Database\n  > {v: %d}\n}\n", k) + extra
+		return head + fmt.Sprintf("@ GET /version {\n  %% db: Database\n  > {v: %d}\n}\n", k) + typed + extra
 	case "valid-ws":
-		return head + version + fmt.Sprintf("\n@ ws /chat%d {\n  on message {\n    ws.send(\"x\")\n  }\n}\n", k) + extra
+		return head + version + typed + fmt.Sprintf("\n@ ws /chat%d {\n  on message {\n    ws.send(\"x\")\n  }\n}\n", k) + extra
 	case "parse":
 		switch rng.Intn(4) {
 		case 0:
@@ -104,14 +109,14 @@ func c19Content(kind string, k int, rng *rand.Rand) string {
 		return fmt.Sprintf("# edit %d\n@ GET /version { > {v: %d} ", k, k) + string(b) + "\x00\"{{{"
 	case "semantic":
 		if rng.Intn(2) == 0 {
-			return head + version + fmt.Sprintf("\n@ GET /bad%d {\n  $ x = 1\n  $ x = 2\n  > x\n}\n", k)
+			return head + version + typedOther + fmt.Sprintf("\n@ GET /bad%d {\n  $ x = 1\n  $ x = 2\n  > x\n}\n", k)
 		}
-		return head + version + fmt.Sprintf("\n@ GET /bad%d {\n  nope = 2\n  > 1\n}\n", k)
+		return head + version + typedOther + fmt.Sprintf("\n@ GET /bad%d {\n  nope = 2\n  > 1\n}\n", k)
 	case "ws-conflict":
 		ws := "@ ws /chat {\n  on message {\n    ws.send(\"x\")\n  }\n}\n"
-		return head + version + "\n" + ws + "\n" + ws
+		return head + version + typedOther + "\n" + ws + "\n" + ws
 	case "live-conflict":
-		return head + version + "\n@ ws /__livereload {\n  on message {\n    ws.send(\"x\")\n  }\n}\n"
+		return head + version + typedOther + "\n@ ws /__livereload {\n  on message {\n    ws.send(\"x\")\n  }\n}\n"
 	case "empty":
 		return ""
 	case "comment":
@@ -188,6 +193,7 @@ type c19Step struct {
 	Final    c19Probe   `json:"final"`
 	Attempts int        `json:"attempts"`
 	Late     *c19Probe  `json:"late,omitempty"`
+	Typed    *c19Probe  `json:"typed,omitempty"` // POST /typed with the conforming body of the version that answered Final
 }
 
 type c19DevOut struct {
@@ -441,6 +447,19 @@ func c19JudgeDev(r *mon.Run, level string, job *c19DevJob, out *c19DevOut) {
 						map[string]interface{}{"final": st.Final, "logs": out.Logs})
 					return
 				}
+			}
+		}
+		if st.Typed != nil && strings.HasPrefix(st.Final.ident(), "v:") {
+			var fv struct {
+				V int `json:"v"`
+			}
+			json.Unmarshal([]byte(st.Final.B), &fv)
+			want := fmt.Sprintf(`{"typed":%d}`, fv.V)
+			r.Count("typed_contract_probes", 1)
+			if st.Typed.Err == "" && (st.Typed.S != 200 || st.Typed.B != want) && !(job.Mode == "burst") {
+				viol(i, "serving-version-rejects-its-own-contract", fmt.Sprintf("after a %s edit the port serves version %d, but POST /typed with the body that version's input type requires is answered %d %s", e.Kind, fv.V, st.Typed.S, clipN(st.Typed.B, 120)),
+					want, fmt.Sprintf("%d %s", st.Typed.S, clipN(st.Typed.B, 120)), map[string]interface{}{"cold": st.Cold, "cold_err": st.ColdErr, "edit_declares": "another Payload type", "logs": out.Logs})
+				return
 			}
 		}
 		cur = exp
@@ -756,7 +775,20 @@ type c19ProcResult struct {
 	LogLines int
 }
 
+var c19PortSeq atomic.Int64
+
+// c19FreePort: below the ephemeral range (see devFreePort in the overlay worker), from a slice
+// of the range reserved for the parent process.
 func c19FreePort() int {
+	for i := 0; i < 200; i++ {
+		p := 31100 + int(c19PortSeq.Add(1)%800)
+		l, err := net.Listen("tcp", fmt.Sprintf("127.0.0.1:%d", p))
+		if err != nil {
+			continue
+		}
+		l.Close()
+		return p
+	}
 	l, err := net.Listen("tcp", "127.0.0.1:0")
 	if err != nil {
 		return 0
@@ -833,17 +865,45 @@ func c19RunProc(bin, dir string, id int, initial string, edits []c19Edit) c19Pro
 		time.Sleep(10 * time.Millisecond)
 	}
 	if !up {
+		if strings.Contains(tail(), "address already in use") {
+			res.Skipped = "port-lost"
+			return res
+		}
 		res.Skipped = "glyph dev did not come up with the initial version: " + tail()
 		return res
 	}
-	// the watcher is announced by a log line; give it a moment after that
-	for i := 0; i < 300; i++ {
-		if strings.Contains(tail(), "Watching") {
+	// The watcher goroutine is started after the "Watching" line is printed and needs a moment
+	// to register with inotify; an edit made before that is simply not seen (a user edits
+	// seconds after start-up, not microseconds). Prime it: re-save the initial content until the
+	// process reports a reload, then let that reload finish.
+	full := func() string {
+		lf.Sync()
+		b, _ := os.ReadFile(logPath)
+		return string(b)
+	}
+	primed := false
+	for i := 0; i < 100 && alive() && !primed; i++ {
+		os.WriteFile(file, []byte(initial), 0o644)
+		for k := 0; k < 30; k++ {
+			if strings.Contains(full(), "reloading") {
+				primed = true
+				break
+			}
+			time.Sleep(10 * time.Millisecond)
+		}
+	}
+	if !primed {
+		res.Skipped = "the watcher of glyph dev never reacted to a priming save: " + tail()
+		return res
+	}
+	for i := 0; i < 600; i++ {
+		l := full()
+		if strings.Count(l, "Hot reload complete")+strings.Count(l, "reload failed") >= strings.Count(l, "reloading") && probe().ident() == cur {
 			break
 		}
 		time.Sleep(10 * time.Millisecond)
 	}
-	time.Sleep(60 * time.Millisecond)
+	time.Sleep(150 * time.Millisecond) // past the debounce window of the last priming save
 	fail := func(step int, sig, what, exp, obs string) c19ProcResult {
 		res.Sig, res.What = "proc:watch:"+sig, what
 		res.Viol = &c19Witness{Level: "real `glyph dev` process", Mode: "watch", Sequence: res.Seq, Step: step, Expected: exp, Observed: obs,
@@ -1295,6 +1355,9 @@ func checkC19(tier string) {
 			defer func() { <-sem }()
 			dir := filepath.Join(mon.BuildDir(), "tmp", fmt.Sprintf("proc-%d-%d", os.Getpid(), j.id))
 			res := c19RunProc(glyphBin, dir, j.id, j.init, j.edits)
+			for attempt := 0; attempt < 3 && res.Skipped == "port-lost"; attempt++ {
+				res = c19RunProc(glyphBin, dir, j.id, j.init, j.edits) // another process took the port first: try another one
+			}
 			pmu.Lock()
 			defer pmu.Unlock()
 			nontrivial := false
